@@ -1,5 +1,5 @@
 (* C14 correspondence: cases as printed by harness/c14. *)
-From Verif Require Export Lib.Base Model.C14_Subscriptions Model.C14_Spec Model.C14_Reorg.
+From Verif Require Export Lib.Base Model.C14_Subscriptions Model.C14_Spec Model.C14_Reorg Model.C14_Start.
 
 (* What the harness observed for one operation.  Every list is sorted by the harness: a payload by
    (slot, committee, validator), the stored info and the jobs by (slot, committee). *)
